@@ -46,6 +46,13 @@ pub fn pair_histories(rep: &mut Report, cfg: &Cfg, stage: &str, frames: &[PFrame
 /// reported under that property when the predicate holds (e.g. C06 for SYN segments: the SYN-ACK
 /// depends only on the 4-tuple and the key, whatever happened before).
 pub fn pair_histories_owned(rep: &mut Report, cfg: &Cfg, stage: &str, frames: &[PFrame], owner: Option<(&'static str, fn(&[u8]) -> bool, &'static str)>) {
+    // the same frame set under the same configuration is explored once per run (the union of the
+    // L2-L4 checks would otherwise repeat it)
+    let fp = format!("pairs_done:{}:{}:{}", cfg.describe(), frames.len(), frames.first().map(|f| f.name.clone()).unwrap_or_default());
+    if rep.extra.contains_key(&fp) {
+        return;
+    }
+    rep.extra.insert(fp, serde_json::json!(stage));
     let t0 = std::time::Instant::now();
     // reference: every frame alone in a fresh process
     let mut alone: Vec<String> = Vec::with_capacity(frames.len());
